@@ -14,8 +14,9 @@ from props import calsim, c15
 THEOREMS = ['Libvna.CT.' + t for t in (
     'findName_spec', 'firstNone_spec', 'add_index', 'add_frame', 'add_replaces_in_place', 'add_then_find', 'delete_one_slot',
     'delete_empties', 'calEnd_spec', 'scanFree_spec', 'alloc_fresh', 'alloc_frame', 'setup_predefined', 'predefined_permanent',
-    'delete_refused_frame')]
-FILES = ['Model/CalTable.lean', 'Props/C16.lean', 'Driver/CalDrv.lean']
+    'delete_refused_frame')] + ['Libvna.PH.' + t for t in (
+    'lookupL_iff', 'lookup_iff', 'put_inv', 'put_mem', 'expand_spec', 'insert_spec', 'build_spec', 'lookup_build')]
+FILES = ['Model/CalTable.lean', 'Props/C16.lean', 'Driver/CalDrv.lean', 'Model/ParamHash.lean', 'Props/C16Hash.lean']
 NAMES = [b'a', b'b', b'cal one', b'x', b'y', b'z', b'n1', b'n2', b'n3', b'n4', b'n5']
 
 
@@ -141,10 +142,16 @@ def history(rng, exe, length, box, f0=1e9):
                 N['used'].add(h)
                 N['vals'][h] = v
                 N['codes'].add(complex(round(v.real, 9), round(v.imag, 9)))
+                m = table_ok(S.send('cal hash_dump %d' % n), {0} | N['used'])
+                if m:
+                    return fail(m)
             else:
                 o = S.send('cal add %d single_reflect m 1 1 1 %s %d 1' % (n, vlib.c2h(0.1), h))
                 if not o.startswith('fail EINVAL'):
                     return fail('standard with invalid handle %d should be refused with EINVAL' % h)
+                m = table_ok(S.send('cal hash_dump %d' % n), {0} | N['used'])
+                if m:
+                    return fail(m)
         elif r < 0.88 and news:
             n = rng.choice(ready) if ready else rng.choice(list(news))
             N = news[n]
@@ -208,12 +215,36 @@ def history(rng, exe, length, box, f0=1e9):
     return S, None
 
 
+def table_ok(o, want):
+    """the per-calibration parameter table (hook _vnacal_new_verif_hash_dump) holds exactly the parameters the vnacal_new_t uses, each once,
+    in the chain of its residue, every chain ascending (what hash_lookup's early stop relies on)"""
+    t = o.split()
+    if not t or t[0] != 'ok':
+        return 'hash_dump failed: %s' % o[:80]
+    size = int(t[1])
+    chains = ' '.join(t[2:]).split(';')[:-1]
+    if len(chains) != size or size < 1:
+        return 'parameter table: %d chains dumped for an allocation of %d' % (len(chains), size)
+    seen = []
+    for i, c in enumerate(chains):
+        es = [int(x) for x in c.split()]
+        if any(a >= b for a, b in zip(es, es[1:])):
+            return 'parameter table: chain %d is not in ascending order: %s' % (i, es)
+        if any(e % size != i for e in es):
+            return 'parameter table: chain %d holds an index of another residue: %s' % (i, es)
+        seen += es
+    if sorted(seen) != sorted(want):
+        return 'parameter table holds %s, the vnacal_new_t uses %s' % (sorted(seen), sorted(want))
+    return None
+
+
 def run(chk):
     rng = random.Random(chk.seed * 53 + 16)
     broken = []
-    c15.proof_side(chk, ['Libvna.Props.C16'], THEOREMS, FILES, broken)
-    chk.trusted += ['Model/CalTable.lean hand model tied by the correspondence run; tools/props/c16.py abstract table as oracle']
-    chk.checker_cmd = 'cd lean && lake build Libvna.Props.C16 && #print axioms'
+    c15.proof_side(chk, ['Libvna.Props.C16', 'Libvna.Props.C16Hash'], THEOREMS, FILES, broken)
+    chk.trusted += ['Model/CalTable.lean hand model tied by the correspondence run; tools/props/c16.py abstract table as oracle',
+                    'Model/ParamHash.lean hand model of the per-calibration parameter table, tied chain by chain through the guarded hook _vnacal_new_verif_hash_dump']
+    chk.checker_cmd = 'cd lean && lake build Libvna.Props.C16 Libvna.Props.C16Hash && #print axioms'
     exe, _ = vlib.build_c()
     quick = chk.tier == 'quick'
     nh = (60 if quick else 1500) * (4 if broken else 1)
@@ -256,7 +287,7 @@ def run(chk):
                 'every calibration built (also from handles deleted while in use) must correct a device')
     chk.extra['model_mismatches'] = nmis
     if not chk.violations:
-        many_handles(chk, exe, rng, 3 if chk.tier == 'quick' else 40)
+        many_handles(chk, exe, rng, 3 if chk.tier == 'quick' else 40, broken)
     # values of solved unknown parameters are those last solved: the same handle solved by two vnacal_new_t on different grids
     from props import c02
     if not chk.violations:
@@ -266,7 +297,7 @@ def run(chk):
         chk.violation('obligation', 'proof/correspondence obligations that no longer check:\n' + '\n'.join(broken[:30]), nofail=True)
 
 
-def many_handles(chk, exe, rng, reps):
+def many_handles(chk, exe, rng, reps, broken):
     """one vnacal_new_t holding many parameters (its per-calibration table grows several times); every handle is deleted while the
     vnacal_new_t uses it and then used there again: it must still be the same parameter (vnacal_delete_parameter(3))"""
     for rep in range(reps):
@@ -281,6 +312,7 @@ def many_handles(chk, exe, rng, reps):
             sc.lines.append('cal make_scalar %d %s' % (sc.c, vlib.c2h(g)))
             gam[3 + k] = g
         order = list(gam)
+        used, dumps = {0, 1, 2}, []        # short, open and match are held from the start
         if rep == 0:
             # handles that are congruent modulo 8, 16, 32, 64 next to each other: whenever the table grows, some share a chain
             order.sort(key=lambda hd: (hd % 8, hd))
@@ -290,6 +322,9 @@ def many_handles(chk, exe, rng, reps):
         def add(hd):
             S = [calsim.embed(1, [0], [[gam[hd]]], sc.others)]
             sc.lines.append('cal add %d single_reflect %s %d %d' % (sc.n, sc.mtext(sc.meas(S)), hd, 1))
+            sc.lines.append('cal hash_dump %d' % sc.n)
+            used.add(hd)
+            dumps.append((len(sc.lines) - 1, set(used)))
         # every handle is deleted right after its first use (the vnacal_new_t keeps it); earlier ones are used again after every
         # further addition, i.e. in every state of the growing table
         done = []
@@ -315,6 +350,21 @@ def many_handles(chk, exe, rng, reps):
             chk.violation('held-handle', '%s: `%s` -> %s (a handle deleted while the vnacal_new_t uses it must keep working there)' % (
                 tag, bad[0][0][:60] + ' ... ' + bad[0][0][-12:], bad[0][1][:100]), sc.lines[:sc.lines.index(bad[0][0]) + 1])
             return
+        for i, want in dumps:
+            m = table_ok(out[i], want)
+            if m:
+                chk.violation('param-table', '%s: %s' % (tag, m), sc.lines[:i + 1])
+                return
+        mout, mrc, merr = vlib.run_lines(vlib.model_exe(), sc.lines, timeout=300)
+        if mrc != 0 or len(mout) != len(sc.lines):
+            broken.append('model driver failed on a many-handles script: %s' % merr[-200:])
+        else:
+            for i, want in dumps:
+                if mout[i] != out[i]:
+                    broken.append('correspondence: Model/ParamHash and the library table differ after `%s`\n  library: %s\n  model  : %s' % (
+                        sc.lines[i - 1][-24:], out[i][:160], mout[i][:160]))
+                    break
+                chk.count('param_table_dumps_compared')
         ok, S = calsim.parse_apply(out[iapply], 1)
         e = max(np.abs(S[f] - dut[f]).max() for f in range(len(dut))) if ok else float('inf')
         if not e <= 1e-7:
